@@ -189,6 +189,7 @@ type wire struct {
 	ctx     context.Context
 	sid     int
 	or      *OResp
+	call    *UpCall
 	eofErr  error // what a premature end of the stream looks like to the reader when no HTTP/1 body reader sits in between
 }
 
@@ -206,12 +207,20 @@ func (w *wire) Read(p []byte) (int, error) {
 		if w.r.Sim.Aborted() {
 			return 0, io.ErrUnexpectedEOF
 		}
+		cancelled := false
 		if w.lat > 0 {
-			if w.r.Sim.Sleep(w.lat, w.done, "up:chunk") || (w.ctx != nil && ctxOver(w.ctx)) {
-				return 0, errors.New("sim: context canceled while reading body")
-			}
+			cancelled = w.r.Sim.Sleep(w.lat, w.done, "up:chunk")
 		} else {
 			w.r.Sim.Yield("up:chunk")
+		}
+		// (a request whose context has ended gets no further bytes from the network, as with net/http's
+		// transport: what had arrived with the header block is all there is)
+		if cancelled || (w.ctx != nil && ctxOver(w.ctx)) {
+			if w.call != nil && w.call.BodyCancelAt == 0 {
+				w.call.BodyCancelAt = w.r.Sim.Now() + 1
+			}
+			w.r.probe("body-read-after-cancel")
+			return 0, fmt.Errorf("sim: reading body: %w", ctxErr(w.ctx))
 		}
 	}
 	w.first = false
@@ -572,7 +581,7 @@ func (r *Run) compose(g *kit.Gor, call *UpCall, req *http.Request, res, planIdx 
 			body = body[:fat]
 			or.Body, or.Complete = body, true
 		}
-		w := &wire{r: r, data: body, cuts: cutsOf(plan.Chunks, 0, len(body)), lat: time.Duration(plan.ChunkLatNs), fault: bodyFault(plan), faultAt: fat, first: true, done: req.Context().Done(), ctx: req.Context(), sid: sid, or: or}
+		w := &wire{r: r, data: body, cuts: cutsOf(plan.Chunks, 0, len(body)), lat: time.Duration(plan.ChunkLatNs), fault: bodyFault(plan), faultAt: fat, first: true, done: req.Context().Done(), ctx: req.Context(), sid: sid, or: or, call: call}
 		if framing == "h2" {
 			// a stream that ends before its declared length is an error to an HTTP/2 client, as it is to HTTP/1's
 			w.eofErr = io.ErrUnexpectedEOF
@@ -654,7 +663,7 @@ func (r *Run) compose(g *kit.Gor, call *UpCall, req *http.Request, res, planIdx 
 		or.Body = append([]byte(nil), data[hdrLen:]...)
 		or.Complete = true
 	}
-	w := &wire{r: r, data: data, cuts: cutsOf(plan.Chunks, hdrLen, len(data)), lat: time.Duration(plan.ChunkLatNs), fault: bodyFault(plan), faultAt: plan.FaultAt, first: true, done: req.Context().Done(), ctx: req.Context(), sid: sid, or: or}
+	w := &wire{r: r, data: data, cuts: cutsOf(plan.Chunks, hdrLen, len(data)), lat: time.Duration(plan.ChunkLatNs), fault: bodyFault(plan), faultAt: plan.FaultAt, first: true, done: req.Context().Done(), ctx: req.Context(), sid: sid, or: or, call: call}
 	if w.fault != "" {
 		// FaultAt is relative to the start of the body unless negative (then inside the header block)
 		if plan.FaultAt >= 0 {
